@@ -31,23 +31,26 @@ type Profile struct {
 	PStr        float64
 	POnce       float64 // probability that a rule gets a bare method-call action (no Forget) and retracts itself
 	PDep        float64 // probability that an assignment targets a location some condition reads
+	PRepoint    float64 // probability of the action F.P = F.Spare
 	OneHeavy    bool    // the program holds exactly one counted atom F.Heavy(<path>), shared by its rules (C13)
 }
 
 var profiles = map[string]*Profile{
-	"core": {Name: "core", PDep: 0.7, MinRules: 2, MaxRules: 4, UseTop: true, DynSel: 0.3, PMethod: 0.25, PRetract: 0.08, PComplete: 0.04,
+	"core": {Name: "core", PRepoint: 0.05, PDep: 0.7, MinRules: 2, MaxRules: 4, UseTop: true, DynSel: 0.3, PMethod: 0.25, PRetract: 0.08, PComplete: 0.04,
 		PSetter: 0.08, PHeavy: 0.1, Saliences: []int64{-2, -1, 0, 0, 1, 2}, MaxActs: 3, PStr: 0.15, PRemoved: 0.05, POnce: 0.15},
+	"small": {Name: "small", PDep: 0.7, MinRules: 1, MaxRules: 2, UseTop: true, DynSel: 0.3, PMethod: 0.25, PRetract: 0.1, PComplete: 0.05,
+		PSetter: 0.1, PHeavy: 0.2, Saliences: []int64{-1, 0, 1}, MaxActs: 2, PStr: 0.2, PRemoved: 0.1, POnce: 0.2},
 	"salience": {Name: "salience", MinRules: 3, MaxRules: 5, UseTop: true, DynSel: 0.1, PMethod: 0.1, PRetract: 0.25, PComplete: 0.02,
 		Saliences: []int64{-2147483648, -2147483647, -1, 0, 0, 1, 2, 2147483646, 2147483647, 7, 7, -7}, MaxActs: 2, PTrueish: 0.7},
 	"control": {Name: "control", PDep: 0.4, MinRules: 2, MaxRules: 5, UseTop: true, DynSel: 0.1, PMethod: 0.1, PRetract: 0.45, PComplete: 0.25,
 		Saliences: []int64{-1, 0, 0, 1, 5}, MaxActs: 4, PTrueish: 0.6, PRemoved: 0.15, POnce: 0.3},
 	"budget": {Name: "budget", MinRules: 1, MaxRules: 4, UseTop: true, DynSel: 0.1, PMethod: 0.1, PRetract: 0.1, PComplete: 0.1,
 		Saliences: []int64{-1, 0, 1}, MaxActs: 2, PTrueish: 0.8},
-	"memo": {Name: "memo", PDep: 0.7, MinRules: 2, MaxRules: 5, UseTop: true, DynSel: 0.2, PMethod: 0.5, PRetract: 0.1, PComplete: 0.02,
+	"memo": {Name: "memo", PRepoint: 0.04, PDep: 0.7, MinRules: 2, MaxRules: 5, UseTop: true, DynSel: 0.2, PMethod: 0.5, PRetract: 0.1, PComplete: 0.02,
 		PSetter: 0.15, PHeavy: 0.6, Saliences: []int64{-1, 0, 0, 1}, MaxActs: 3, PTrueish: 0.3},
 	"memo13": {Name: "memo13", PDep: 0.6, MinRules: 2, MaxRules: 5, UseTop: true, DynSel: 0.3, PMethod: 0.4, PRetract: 0.1, PComplete: 0.02,
 		PSetter: 0.1, PHeavy: 1, OneHeavy: true, PFault: 0.12, Saliences: []int64{-1, 0, 0, 1}, MaxActs: 3, PTrueish: 0.3, POnce: 0.1},
-	"fault": {Name: "fault", PDep: 0.5, MinRules: 2, MaxRules: 4, UseTop: true, DynSel: 0.4, PMethod: 0.3, PFault: 0.35, PRetract: 0.15, PComplete: 0.05,
+	"fault": {Name: "fault", PRepoint: 0.05, PDep: 0.5, MinRules: 2, MaxRules: 4, UseTop: true, DynSel: 0.4, PMethod: 0.3, PFault: 0.35, PRetract: 0.15, PComplete: 0.05,
 		Saliences: []int64{-1, 0, 0, 1}, MaxActs: 3, PTrueish: 0.4, POnce: 0.2},
 	"fetch": {Name: "fetch", MinRules: 2, MaxRules: 6, UseTop: true, DynSel: 0.2, PMethod: 0.3, PFault: 0.15, PRetract: 0.1, PComplete: 0.05,
 		Saliences: []int64{-3, -1, 0, 0, 0, 1, 1, 9}, MaxActs: 2, PTrueish: 0.5, PRemoved: 0.25, PStr: 0.2},
@@ -246,6 +249,9 @@ func (g *Gen) genAction(self string) *Action {
 	case c < g.p.PRetract+g.p.PComplete+g.p.PSetter:
 		return &Action{Kind: "set", Name: []string{"SetX", "SetY"}[g.pick(2)], E: g.exactInt(1)}
 	}
+	if g.chance(g.p.PRepoint) {
+		return &Action{Kind: "repoint"}
+	}
 	if g.chance(g.p.PFault * 0.4) {
 		// an assignment whose target may not exist: element out of range, field behind a nil pointer
 		e, _ := g.genInt(1)
@@ -367,6 +373,10 @@ func (g *Gen) discipline(p *Program) {
 				}
 				// a method-call action is itself remembered: name the fact so that it runs again next time
 				out = append(out, &Action{Kind: []string{"forget", "changed"}[g.pick(2)], Name: "F"})
+			case "repoint":
+				if getpv {
+					out = append(out, &Action{Kind: []string{"forget", "changed"}[g.pick(2)], Name: []string{"F", "F.GetPV()"}[g.pick(2)]})
+				}
 			case "asg":
 				t := a.Path.GRL()
 				if (t == "F.X" && getx) || (t == "F.P.V" && getpv) {
@@ -443,7 +453,7 @@ func (g *Gen) World() *World {
 	v := func() int64 { return int64(g.pick(5)) }
 	f := &Fact{X: v(), Y: v(), Z: v(), H: v(), K: int(v()), W: int32(v()), B: g.chance(0.5), C: g.chance(0.5),
 		S: []string{"", "a", "b", "ab"}[g.pick(4)], T: []string{"", "a", "b"}[g.pick(3)], I: int64(g.pick(2)),
-		P: &Sub{V: v(), S: []string{"", "a"}[g.pick(2)]}, Arr: []int64{v(), v()}, M: map[string]int64{"a": v(), "b": v()}}
+		P: &Sub{V: v(), S: []string{"", "a"}[g.pick(2)]}, Spare: &Sub{V: 7, S: "sp"}, Arr: []int64{v(), v()}, M: map[string]int64{"a": v(), "b": v()}}
 	if g.p.PFault > 0 {
 		if g.chance(0.5) {
 			f.Q = &Sub{V: v()}
